@@ -27,6 +27,7 @@ type Scenario struct {
 	Policy     string `json:"policy"`     // key cache eviction policy
 	Capacity   int    `json:"capacity"`   // key cache capacity
 	Shared     bool   `json:"shared"`     // shared IK cache
+	NoIKCache  bool   `json:"noIKCache"`  // Policy.CacheIntermediateKeys = false (with Shared the factory's shared cache is still what sessions get)
 	SessCache  bool   `json:"sessCache"`  // session cache on
 	SessPolicy string `json:"sessPolicy"` // session cache policy
 	SessCap    int    `json:"sessCap"`
@@ -75,6 +76,7 @@ func runOnce(sc Scenario, s *vrt.Sched, seed int64) (out outcome) {
 		pol.SystemKeyCacheEvictionPolicy = "simple"
 		pol.IntermediateKeyCacheMaxSize = sc.Capacity
 		pol.SharedIntermediateKeyCache = sc.Shared
+		pol.CacheIntermediateKeys = !sc.NoIKCache
 		pol.CacheSessions = sc.SessCache
 		if sc.SessCache {
 			pol.SessionCacheMaxSize = sc.SessCap
